@@ -37,7 +37,8 @@ bvars == <<cfg, s, log>>
 
 None == 0 - 1
 \* dest: where a write to standard output lands at the moment of the event ("orig" the process's own, "file" optimizer.stdout)
-Ev(name, n, obj, kinds, str) == [ev |-> name, n |-> n, obj |-> obj, kinds |-> kinds, s |-> str, dest |-> s.fd]
+\* open: file descriptors the library holds at that moment (the redirector: two saved, two for the files)
+Ev(name, n, obj, kinds, str) == [ev |-> name, n |-> n, obj |-> obj, kinds |-> kinds, s |-> str, dest |-> s.fd, open |-> s.open]
 
 K == Len(cfg.script)
 Req == cfg.script[s.k]                  \* what the optimizer asked for
@@ -58,10 +59,11 @@ SeenObj(it) == IF HasF(it) /\ ~it.fail THEN it.obj ELSE None
 NewRun(run, regA, regR) ==
   [run |-> run, phase |-> "loop", k |-> 1, di |-> 0, done |-> 0, best |-> None, exit |-> "none",
    regA |-> regA, regR |-> regR, acalls |-> s.acalls, cache |-> <<>>,
-   fd |-> IF cfg.redir THEN "file" ELSE "orig"]        \* _Redirector.start(): the backend's output goes to the file
+   fd |-> IF cfg.redir THEN "file" ELSE "orig",        \* _Redirector.start(): the backend's output goes to the file
+   open |-> IF cfg.redir THEN 4 ELSE 0]
 
 S0 == [run |-> 1, phase |-> "idle", k |-> 1, di |-> 0, done |-> 0, best |-> None, exit |-> "none",
-       regA |-> 0, regR |-> 0, acalls |-> 0, cache |-> <<>>, fd |-> "orig"]
+       regA |-> 0, regR |-> 0, acalls |-> 0, cache |-> <<>>, fd |-> "orig", open |-> 0]
 
 \* run(): a fresh plan and tracker; callbacks set since the last run become observers (each exactly once)
 StartRun ==
@@ -133,7 +135,7 @@ AfterEval ==
 \* whatever ended the backend (return, budget, failure, abort): the process's own output is restored
 Restore ==
   /\ s.phase = "finish"
-  /\ s' = [s EXCEPT !.phase = "report", !.fd = "orig"]
+  /\ s' = [s EXCEPT !.phase = "report", !.fd = "orig", !.open = 0]
   /\ UNCHANGED <<cfg, log>>
 
 \* the run returns: exit code, tracked best and its variables are read from the object
@@ -189,6 +191,8 @@ ReportsTrackedBest ==
 \* only the backend's own output is redirected, and nothing stays redirected after a run
 OutputRouting ==
   \A i \in 1..Len(log) : log[i].dest = (IF log[i].ev = "Opt" /\ cfg.redir THEN "file" ELSE "orig")
+\* a run gives back every descriptor it opened
+NoDescriptorLeft == \A i \in Idx("Done") : log[i].open = 0
 
 \* exit code and budget
 FunctionsOf(r) == Cardinality({k \in Delivered(r) : HasF(cfg.script[k]) /\ ~cfg.script[k].fail})
